@@ -108,7 +108,7 @@ class FakeClock:
         self.t += d + (self.oversleep.pop(0) if self.oversleep else 0.0)
 
 
-def run_play(mf, meta_messages, start, holds, oversleep, poke=None):
+def run_play(mf, meta_messages, start, holds, oversleep, poke=None, late_start=0.0):
     """real play() against a scripted clock; returns [(message, clock at yield)]"""
     import mido.midifiles.midifiles as mm
     clock = FakeClock(start, oversleep)
@@ -121,7 +121,9 @@ def run_play(mf, meta_messages, start, holds, oversleep, poke=None):
     try:
         res = []
         holds = list(holds)
-        for msg in mf.play(meta_messages=meta_messages, now=clock.now):
+        player = mf.play(meta_messages=meta_messages, now=clock.now)
+        clock.t += late_start              # time passes between making the player and starting to iterate it: playback starts at the first next()
+        for msg in player:
             res.append((msg, clock.t))
             if poke is not None:
                 poke()
@@ -234,6 +236,14 @@ def check_play(rng, tpb, evs):
             if abs(t - expect) > 1e-6 * max(1.0, abs(expect)) and not (not mmf and t <= max(start + s, prev_back) + 1e-6 and t >= start + s - 1e-6):
                 return ('play-drift', 'with exact sleeps a message scheduled at +%r was yielded at +%r; consumer came back at +%r' % (s, t - start, prev_back - start))
             prev_back = t + h
+        # the player is made, time passes, then it is iterated: the schedule counts from the start of the iteration
+        late = rng.choice([0.3, 1.2, 100.0])
+        res2, _ = run_play(mf, mmf, start, holds, [], late_start=late)
+        if [(repr(m), t - late) for m, t in res2] != [(repr(m), t) for m, t in res0]:
+            k = next((i for i, (x, y) in enumerate(zip(res2, res0)) if (repr(x[0]), x[1] - late) != (repr(y[0]), y[1])), min(len(res2), len(res0)))
+            if any(abs((x[1] - late) - y[1]) > 1e-6 * max(1.0, abs(y[1])) for x, y in zip(res2, res0)) or len(res2) != len(res0):
+                return ('play-late-start', 'a player made %r s before it was iterated yields message %d at +%r after the start of the iteration, a player iterated at once at +%r'
+                        % (late, k, res2[k][1] - late - start if k < len(res2) else None, res0[k][1] - start if k < len(res0) else None))
         # the consumer reads length (and starts an iteration) between messages: playback must not notice
         res1, _ = run_play(mf, mmf, start, holds, [], poke=lambda: (mf.length, next(iter(mf), None)))
         if [(repr(m), t) for m, t in res1] != [(repr(m), t) for m, t in res0]:
